@@ -7,17 +7,20 @@
 static rotenc_t *r;
 static const int gray[4] = { 0, 1, 3, 2 };
 static long phase; /* index into the gray sequence (driver's own idea of where the shaft is) */
+static int last_fed;  /* last state given to the decoder (the structure's own fields are private) */
 
 static void reset(void)
 {
 	free(r);
 	r = calloc(1, sizeof(*r));
 	phase = 0;
+	last_fed = 0;
 	printf("{\"e\":\"Reset\"}\n");
 }
 static void dec(int s)
 {
 	rotenc_decode(r, (uint8_t)s);
+	last_fed = s;
 	printf("{\"e\":\"D\",\"s\":%d,\"c\":%u,\"c14\":%u}\n", s, rotenc_count(r), rotenc_count14(r));
 }
 static void step(int dir) { phase += dir; dec(gray[((phase % 4) + 4) % 4]); }
@@ -53,7 +56,13 @@ int main(void)
 			static const int fw[3] = { 1, 3, 2 }, bw[3] = { 2, 3, 1 };
 			for (long i = 0; i < n; i++) dec(dir > 0 ? fw[i % 3] : bw[i % 3]);
 			dec(0); dec(dir > 0 ? 1 : 2); dec(0);
-			for (int k = 0; k < 4; k++) if (gray[k] == r->last_state) phase = k;
+			for (int k = 0; k < 4; k++) if (gray[k] == last_fed) phase = k;
+		}
+		else if (drv_is(&c, "Hold")) {
+			/* the same state polled n times in a row (a knob at rest, or held part-way through a click) */
+			int st = drv_arg(&c, 0); long n = drv_arg(&c, 1);
+			for (long i = 0; i < n; i++) dec(st);
+			for (int k = 0; k < 4; k++) if (gray[k] == last_fed) phase = k;
 		}
 		else if (drv_is(&c, "Random")) {
 			drv_srand(drv_arg(&c, 0));
@@ -63,7 +72,7 @@ int main(void)
 				if (x < 9) step(1); else if (x < 17) step(-1); else if (x == 17) dec(drv_below(4));
 				else dec(gray[((phase % 4) + 4) % 4]);
 				if (x == 17) { /* resynchronise the driver's phase with the last state fed in */
-					for (int k = 0; k < 4; k++) if (gray[k] == r->last_state) phase = k;
+					for (int k = 0; k < 4; k++) if (gray[k] == last_fed) phase = k;
 				}
 			}
 		}
